@@ -1192,7 +1192,7 @@ impl Exec {
         if self.db.is_none() {
             return;
         }
-        let kind = kind % 9;
+        let kind = kind % 10;
         if kind == 8 {
             // the backend's own close() reports an error: still exactly one close, nothing after it
             self.disk.st().fail_close = true;
@@ -1217,6 +1217,22 @@ impl Exec {
             1 => {
                 let keep = (arg as usize) % img.len().max(1);
                 img.truncate(keep);
+            }
+            9 => {
+                // read-only open of a cleanly closed file whose header was altered: the commit-slot
+                // selector bits of the "god byte", or one byte of a commit slot. Whatever the open
+                // decides, a read-only database never writes, resizes or syncs.
+                if img.len() > 320 {
+                    match arg % 4 {
+                        0 => img[9] ^= 1,
+                        1 => img[9] ^= 4,
+                        2 => img[9] ^= 5,
+                        _ => {
+                            let at = 64 + ((arg >> 8) % 256) as usize;
+                            img[at] ^= 1 << ((arg >> 4) % 8);
+                        }
+                    }
+                }
             }
             6 | 7 => {
                 // extended externally by whole pages (still a valid layout)
@@ -1244,7 +1260,7 @@ impl Exec {
                     b.set_repair_callback(|s| s.abort());
                     b.create_with_backend(d.clone()).map(drop).map_err(|e| e.to_string())
                 }
-                5 | 6 => {
+                5 | 6 | 9 => {
                     d.st().read_only = true;
                     b.verif_open_read_only_with_backend(d.clone()).map(drop).map_err(|e| e.to_string())
                 }
@@ -1252,8 +1268,22 @@ impl Exec {
             }
         }));
         let opened_ok = matches!(r, Ok(Ok(())));
-        if r.is_err() {
-            self.viol("C20", "open-panic", format!("an open (kind {kind}: {}) panicked: {}", ["bad magic", "truncated", "wrong page size", "repair aborted", "I/O fault", "read-only, needs repair", "read-only, file extended", "file extended", ""][kind as usize], crate::runner::last_panic()));
+        if std::env::var_os("SIM_TRACE").is_some() {
+            let (calls, contract) = {
+                let g = d.st();
+                (g.stats.calls, g.contract.clone())
+            };
+            eprintln!("TRACE failing_open kind {kind} arg {arg}: result {:?}; calls {calls:?}; contract {contract:?}", r.as_ref().map_err(|_| "panic"));
+        }
+        if r.is_err() && kind != 9 {
+            self.viol("C20", "open-panic", format!("an open (kind {kind}: {}) panicked: {}", ["bad magic", "truncated", "wrong page size", "repair aborted", "I/O fault", "read-only, needs repair", "read-only, file extended", "file extended", "", ""][kind as usize], crate::runner::last_panic()));
+        }
+        // (kind 9 alters stored bytes: a panic on damaged bytes is C12's "reported", not judged here;
+        // the contract below is) -- except the panic of redb's own read-only wrapper, which is how
+        // an attempted write / resize / sync of a read-only database surfaces before it can reach
+        // the backend it was given
+        if r.is_err() && kind == 9 && crate::runner::last_panic().contains("backends.rs") {
+            self.viol("C20", "read-only-write", format!("a read-only open of a file with an altered header tried to write, resize or sync: {}", crate::runner::last_panic()));
         }
         {
             let s = d.st();
